@@ -276,36 +276,47 @@ theorem slice_append (src : List Nat) (a b c : Nat) (hab : a ≤ b) (hbc : b ≤
   have h2 : c - a = (b - a) + (c - b) := by omega
   rw [h1, h2, List.take_add]
 
-/-- **C27.T3c (slices)** For non-decreasing offsets within the text, every
-`text_for_token_range(i..i+1)` exists and their concatenation is the text between the first and
-the last offset. -/
+theorem isBoundary_length (src : List Nat) : Utf8.isBoundary src src.length = true := by
+  simp [Utf8.isBoundary]
+
+/-- **C27.T3c (slices)** For non-decreasing offsets within the text that lie on char boundaries,
+every `text_for_token_range(i..i+1)` (`str::get`, which checks bounds *and* char boundaries)
+exists and their concatenation is the text between the first and the last offset. -/
 theorem tokenTexts_concat (src : List Nat) : ∀ (l : List Nat) (a z : Nat),
     (a :: (l ++ [z])).Pairwise (· ≤ ·) → (∀ x ∈ a :: (l ++ [z]), x ≤ src.length) →
+    (∀ x ∈ a :: (l ++ [z]), Utf8.isBoundary src x = true) →
     ∃ segs : List (List Nat), tokenTexts src (a :: (l ++ [z])) = segs.map some ∧
       segs.flatten = slice src a z := by
   intro l
   induction l with
   | nil =>
-    intro a z hpw hle
+    intro a z hpw hle hbd
     have haz : a ≤ z := by simpa using hpw
     have hz : z ≤ src.length := hle z (by simp)
-    exact ⟨[slice src a z], by simp [tokenTexts, haz, hz], by simp⟩
+    have ba := hbd a (by simp)
+    have bz := hbd z (by simp)
+    exact ⟨[slice src a z], by simp [tokenTexts, strGet, haz, hz, ba, bz], by simp⟩
   | cons b l ih =>
-    intro a z hpw hle
+    intro a z hpw hle hbd
     rw [List.cons_append, List.pairwise_cons] at hpw
     obtain ⟨segs, h1, h2⟩ := ih b z hpw.2 (fun x hx => hle x (List.mem_cons_of_mem _ hx))
+      (fun x hx => hbd x (List.mem_cons_of_mem _ hx))
     have hab : a ≤ b := hpw.1 b (by simp)
     have hb : b ≤ src.length := hle b (by simp)
     have hbz : b ≤ z := (List.pairwise_cons.mp hpw.2).1 z (by simp)
+    have ba := hbd a (by simp)
+    have bb := hbd b (by simp)
     refine ⟨slice src a b :: segs, ?_, ?_⟩
-    · simp only [List.cons_append, tokenTexts, h1, hab, hb, and_self, if_true, List.map_cons]
+    · simp only [List.cons_append, tokenTexts, strGet, h1, hab, hb, ba, bb, and_self, if_true,
+        List.map_cons]
     · rw [List.flatten_cons, h2, slice_append src a b z hab hbz]
 
-/-- **C27.T3c for `encode`**: with non-decreasing token offsets inside the text (T3b), the
-reported `token_offsets = offs ++ [len]` delimit slices that concatenate to `t[off₀..]` — the
-whole text when the first piece starts at 0. -/
+/-- **C27.T3c for `encode`**: with non-decreasing token offsets inside the text (T3b) that are
+char boundaries, the reported `token_offsets = offs ++ [len]` delimit slices that all exist and
+concatenate to `t[off₀..]` — the whole text when the first piece starts at 0. -/
 theorem c27_slices (src : List Nat) (o0 : Nat) (offs : List Nat)
-    (hpw : (o0 :: offs).Pairwise (· ≤ ·)) (hle : ∀ x ∈ o0 :: offs, x ≤ src.length) :
+    (hpw : (o0 :: offs).Pairwise (· ≤ ·)) (hle : ∀ x ∈ o0 :: offs, x ≤ src.length)
+    (hbd : ∀ x ∈ o0 :: offs, Utf8.isBoundary src x = true) :
     ∃ segs : List (List Nat), tokenTexts src (o0 :: offs ++ [src.length]) = segs.map some ∧
       segs.flatten = src.drop o0 := by
   have hpw' : (o0 :: (offs ++ [src.length])).Pairwise (· ≤ ·) := by
@@ -320,7 +331,13 @@ theorem c27_slices (src : List Nat) (o0 : Nat) (offs : List Nat)
     rcases List.mem_append.mp hx with h | h
     · exact hle x h
     · simp only [List.mem_singleton] at h; omega
-  obtain ⟨segs, h1, h2⟩ := tokenTexts_concat src offs o0 src.length hpw' hle'
+  have hbd' : ∀ x ∈ o0 :: (offs ++ [src.length]), Utf8.isBoundary src x = true := by
+    intro x hx
+    rw [← List.cons_append] at hx
+    rcases List.mem_append.mp hx with h | h
+    · exact hbd x h
+    · simp only [List.mem_singleton] at h; rw [h]; exact isBoundary_length src
+  obtain ⟨segs, h1, h2⟩ := tokenTexts_concat src offs o0 src.length hpw' hle' hbd'
   refine ⟨segs, by simpa using h1, ?_⟩
   rw [h2]
   unfold slice
@@ -476,17 +493,21 @@ theorem encodeStr_head (vocab : List (Str × Nat)) (merges : List (Str × Str)) 
         exact ih s ts os hrest hr hne
     · simp at h
 
-/-- **C27.T3 (partition).**  Lossless pre-tokenizer, no normalizer, at least one token: the
-reported `token_offsets` start at 0, are non-decreasing piece starts within the text and end
-with `text.len()`; every `text_for_token_range(i..i+1)` exists and the slices, in order,
-concatenate to the whole input — the offsets partition the input. -/
+/-- **C27.T3 (partition).**  Lossless pre-tokenizer whose chunks start on char boundaries (they
+are `&str` sub-slices; the harness re-checks it), no normalizer, at least one token: the
+reported `token_offsets` start at 0, are non-decreasing chunk starts within the text, end with
+`text.len()` and **all lie on char boundaries of the input**; every
+`text_for_token_range(i..i+1)` (`str::get`) exists and the slices, in order, concatenate to the
+whole input — the offsets partition the input.  (For the empty text, or when every chunk is
+empty, `encode` returns no tokens and no offsets: `c27_encode_no_tokens`.) -/
 theorem c27_offsets_partition (vocab : List (Str × Nat)) (merges : List (Str × Str)) (ign : Bool)
     (added : List (Nat × List Nat)) (t : Bpe) (hnew : Bpe.new vocab merges none ign added = .ok t)
     (hnd : (vocab.map (·.2)).Nodup) (text : List Nat) (hb : ∀ b ∈ text, b < 256)
-    (pieces : List (Nat × Nat)) (hl : Tiles pieces 0 text.length) (ids offs : List Nat)
+    (pieces : List (Nat × Nat)) (hl : Tiles pieces 0 text.length)
+    (hpbd : ∀ p ∈ pieces, Utf8.isBoundary text p.1 = true) (ids offs : List Nat)
     (h : encode t text.length text none pieces = some (ids, offs)) (hne : ids ≠ []) :
     offs.head? = some 0 ∧ offs.getLast? = some text.length ∧ offs.Pairwise (· ≤ ·) ∧
-    offs.length = ids.length + 1 ∧
+    offs.length = ids.length + 1 ∧ (∀ o ∈ offs, Utf8.isBoundary text o = true) ∧
     ∃ segs : List (List Nat), tokenTexts text offs = segs.map some ∧ segs.flatten = text := by
   unfold encode at h
   split at h
@@ -512,13 +533,36 @@ theorem c27_offsets_partition (vocab : List (Str × Nat)) (merges : List (Str ×
       | cons o0 rest =>
         simp only [List.head?_cons, Option.some.injEq] at hhead
         subst hhead
-        obtain ⟨segs, h1, h2⟩ := c27_slices text 0 rest hpw hle
-        refine ⟨by simp, List.getLast?_concat, ?_, by simp [← hlen], segs, h1,
+        have hbd : ∀ x ∈ 0 :: rest, Utf8.isBoundary text x = true := by
+          intro x hx
+          obtain ⟨p, hp, _, hmo⟩ := hmem x hx
+          simp only [mapOffset, Option.some.injEq] at hmo
+          rw [← hmo]; exact hpbd p hp
+        obtain ⟨segs, h1, h2⟩ := c27_slices text 0 rest hpw hle hbd
+        refine ⟨by simp, List.getLast?_concat, ?_, by simp [← hlen], ?_, segs, h1,
           by simpa using h2⟩
-        rw [List.pairwise_append]
-        refine ⟨hpw, by simp, ?_⟩
-        intro a ha b hb'
-        simp only [List.mem_singleton] at hb'
-        rw [hb']; exact hle a ha
+        · rw [List.pairwise_append]
+          refine ⟨hpw, by simp, ?_⟩
+          intro a ha b hb'
+          simp only [List.mem_singleton] at hb'
+          rw [hb']; exact hle a ha
+        · intro o ho
+          rcases List.mem_append.mp ho with ho | ho
+          · exact hbd o ho
+          · simp only [List.mem_singleton] at ho; rw [ho]; exact isBoundary_length text
+
+/-- The complementary case of `c27_offsets_partition`: no tokens ⇒ no offsets (in particular for
+the empty text, whose only tilings consist of empty chunks). -/
+theorem c27_encode_no_tokens (t : Bpe) (srcLen : Nat) (text : List Nat) (map : Option (List Nat))
+    (pieces : List (Nat × Nat)) (offs : List Nat)
+    (h : encode t srcLen text map pieces = some ([], offs)) : offs = [] := by
+  unfold encode at h
+  split at h
+  · simp at h
+  · split at h
+    · simp only [Option.some.injEq, Prod.mk.injEq] at h; exact h.2.symm
+    · rename_i toks os _ hem
+      simp only [Option.some.injEq, Prod.mk.injEq] at h
+      rw [h.1] at hem; simp at hem
 
 end RtenVerif.ByteBpe
